@@ -7,6 +7,7 @@ import WalrusVerif.Model.Engine
 import WalrusVerif.Model.Quirks
 import WalrusVerif.Model.Frame
 import WalrusVerif.Model.AEng
+import WalrusVerif.Model.AEngR
 /-!
 `wdriver`: line-protocol driver.  One request per line on stdin, one reply per line on stdout.
 It runs the very definitions the theorems in `WalrusVerif/Props` are about.
@@ -43,6 +44,8 @@ structure DState where
   /-- the entry-level model, valid from the first `open` of a program until a close/restart or a fired quirk -/
   aeng : Option AEng.AState := none
   opens : Nat := 0
+  /-- a trigger of an open finding has fired in this program: the entry-level model stops at the next restart -/
+  tainted : Bool := false
 
 def replyStr : Meta.Reply → String
   | .exists_ => "EXISTS" | .created => "CREATED" | .rolled => "ROLLED" | .node => "NODE"
@@ -206,7 +209,7 @@ def handleEng (st : DState) (toks : List String) : Option (DState × String) :=
     match parseMode m with
     | some mode =>
       let cfg := if g = "small" then Eng.smallCfg else Eng.realCfg
-      some ({ st with cfg := cfg, mode := mode, proc := {}, aeng := none, opens := 0 }, "ok")
+      some ({ st with cfg := cfg, mode := mode, proc := {}, aeng := none, opens := 0, tainted := false }, "ok")
     | none => some (st, "bad-op")
   | "eng" :: rest =>
     match parseEngOp st rest with
@@ -222,14 +225,29 @@ def handleEng (st : DState) (toks : List String) : Option (DState × String) :=
         | .bread t m cp s => some (.bread t m cp s)
         | .count t => some (.count t)
         | _ => none
+      let tainted := st.tainted || !q.isEmpty
+      -- a clean restart (StrictlyAtOnce, no finding triggered so far, no allocated-but-empty block):
+      -- the entry-level model goes through `AEng.reopen`; otherwise it stops here
+      let reopened : Option AEng.AState :=
+        match st.aeng with
+        | some a =>
+          if st.mode == .strict && !tainted && a.topics.all (fun (_, x) => AEng.friendlyTopic x) then
+            some (AEng.reopen st.cfg a)
+          else none
+        | none => none
+      let isOpen := st.proc.inst.isSome
       let (aeng, opens, apre) : Option AEng.AState × Nat × String :=
         match op with
-        | .open_ _ => if st.opens = 0 then (some {}, 1, "") else (none, st.opens + 1, "")
-        | .close => (none, st.opens, "")
-        | .restart => (none, st.opens, "")
+        | .open_ _ =>
+          if st.opens = 0 then (some {}, 1, "")
+          else if isOpen then (reopened, st.opens + 1, "")           -- open on a live instance = close + open
+          else (if tainted then none else st.aeng, st.opens + 1, "")
+        | .close => (if isOpen then reopened else st.aeng, st.opens, "")
+        | .restart => (if isOpen then reopened else st.aeng, st.opens, "")
         | .kill => (none, st.opens, "")
         | _ =>
           if q.contains "sealThenAllocFail" then (none, st.opens, "")
+          else if !isOpen then (st.aeng, st.opens, "")
           else match st.aeng, aop with
             | some a, some ao =>
               let (a', ao') := AEng.step st.cfg a ao
@@ -238,7 +256,7 @@ def handleEng (st : DState) (toks : List String) : Option (DState × String) :=
       let txt := pre ++ apre ++ match op, o with
         | .bread _ _ _ (some _), .entries ps => "[" ++ ",".intercalate (ps.map fun (p, tr) => fmtDigest p tr) ++ "]"
         | _, _ => fmtOut o
-      some ({ st with proc := p, aeng := aeng, opens := opens }, txt)
+      some ({ st with proc := p, aeng := aeng, opens := opens, tainted := tainted }, txt)
     | none => some (st, "bad-op")
   | _ => none
 
